@@ -1,8 +1,9 @@
-from . import streams_geom
+from . import streams_geom, streams_kexact
 
 ID = 'C19'
-PROPS_MODULE = ['Refine.Props.C19']
+PROPS_MODULE = ['Refine.Props.C19', 'Refine.Props.C19Kexact']
 STREAMS = [streams_geom.GRAD, streams_geom.RECON]
+STREAMS += [streams_kexact.KX_LINALG, streams_kexact.KX_CLOUD, streams_kexact.KX_MESH]
 EXPLANATION = (
     'Proved (Lean 4, exact real arithmetic, over the executable model bit-compared with the C): '
     'ref_node_tet_grad_nodes returns exactly g for the field a+g.x on every non-flat tet (tetGrad_linear; guard passes iff '
@@ -19,11 +20,40 @@ EXPLANATION = (
     'ref_recon_l2_projection_grad / (static, white-box) ref_recon_l2_projection_hessian on generated jittered, stretched, '
     'renumbered tet, mixed tet/pyr/pri/hex and 2-D tri/qua meshes: bit comparison of every nodal value. '
     'Oracle: exact rational gradient of the linear interpolant per simplex; |grad-g| <= 1e-9 scale and |H| <= 1e-8 scale '
-    'on meshes whose nodal values are a linear function of the coordinates.')
+    'on meshes whose nodal values are a linear function of the coordinates.'
+    ' k-exact part (Props/C19Kexact.lean, model Model/Kexact.lean = ref_cloud_store, ref_recon_grow_cloud_one_layer, '
+    'the row builder of ref_recon_kexact_with_aux, ref_matrix_qr and ref_matrix_solve_ab as coded, the layer-2..8 '
+    'loop of ref_recon_kexact_gradient_hessian): the Taylor coefficient vector (H, grad f(centre)) of a quadratic '
+    'field satisfies every row the C builds (kexact_rows_quadratic; 2-D with the four phantom rows: '
+    'kexact_rows_quadratic_twod); for the Gram-Schmidt exactly as coded a successful ref_matrix_qr has Q^T A = R '
+    'upper triangular with r_kk != 0 (qr_QtA), and QR + elimination returns the solution of every consistent system '
+    'it accepts (qr_solves_consistent); hence ref_recon_kexact_with_aux returns the exact gradient and Hessian '
+    'whenever it returns REF_SUCCESS (kexact_quadratic_exact, _twod), every vertex of a mesh with quadratic nodal '
+    'values gets the exact gradient/Hessian at its own position or - no acceptable stencil within 8 layers, or no '
+    'cell - the zeros the C silently leaves (layerLoop_cases, kexactNode_quadratic, _twod, '
+    'kexactGradHess_quadratic); for ANY field the chain returns the least-squares solution (normal equations + full '
+    'column rank proved for the code), so the result does not depend on the row order, i.e. on the vertex numbering '
+    'that orders the id-sorted cloud (lsq_row_order_independent, kexact_perm, '
+    'kexact_numbering_independent_quadratic). Tie (h_kexact, white-box ref_recon.c): bit comparison of q, r of the '
+    'real ref_matrix_qr on random tall / rank-deficient / badly scaled matrices, of ref_matrix_solve_ab (row '
+    'exchanges, singular, tiny pivots), of the static ref_recon_kexact_with_aux / ref_recon_kexact_center on '
+    'explicit 3-D and 2-D clouds, and of ref_recon_gradient / ref_recon_signed_hessian / ref_recon_hessian with '
+    'REF_RECON_KEXACT on jittered, stretched, renumbered tet, tri and mixed meshes from one cell (cloud never '
+    'sufficient -> zeros) upwards. Oracle on the C output: gradient and Hessian of quadratic fields match the '
+    'analytic ones at every vertex with a non-zero result, renumbering permutes the result, Q^T Q = I, QR = A, A x = '
+    'b.')
 ASSUMPTIONS = [
     'IEEE rounding is modelled (Float instance, bit-compared), not verified: the theorems hold in exact real arithmetic',
-    'not verified: k-exact reconstruction (QR least squares over clouds), the boundary extrapolation layer of '
-    'ref_recon_signed_hessian, the absolute-value step, ghost refresh / partition independence (serial harness)',
+    'not verified: the boundary extrapolation layer of ref_recon_signed_hessian (L2 branch), ghost refresh / partition '
+    'independence (serial harness); the absolute-value step of ref_recon_hessian is tied (bit comparison) but no theorem is '
+    'stated about it here (C16 covers diag_m/form_m)',
+    'k-exact: the theorems assume the coded solve returned REF_SUCCESS at the vertex (the divisible guards then give '
+    'full column rank); a vertex whose stencil never becomes acceptable within 8 layers silently keeps a ZERO '
+    'gradient/Hessian in the C (status is not propagated) - the theorems state this alternative explicitly and the '
+    'oracle counts such vertices',
+    'k-exact: not proved - that REF_SUCCESS itself is invariant under renumbering, that cloud growth commutes with '
+    'renumbering at the mesh level (tie + oracle), ref_recon_ghost_cloud / partition independence (serial harness), '
+    'ref_recon_extrapolate_kexact, ref_recon_roundoff_limit',
     'numbering independence is exercised by the generator (random renumbering) and follows from the per-node form of the '
     'theorems; it is not stated as a separate theorem',
 ]
